@@ -5,6 +5,7 @@ Variants
   san   clang++ -O1 ASan+UBSan, asserts on, -DNINJA_VERIF=1           -> probe, enumerators, ninja_san
   fuzz  san + -fsanitize=fuzzer-no-link                               -> libFuzzer targets
   rel   g++ -O2 -DNDEBUG -DNINJA_VERIF=1 (production flags + inert hooks) -> ninja_rel for the E2E engine
+  fast  g++ -O2, asserts on, no sanitizers                                 -> probe for the bulk of the semantic campaigns
 
 Every artefact lives in /verif/.build/<variant>-<key>/ where key = sha256(all src files + flags); stale
 directories are removed, so a check always runs code compiled from the tree as it is *now*.
@@ -34,6 +35,8 @@ VARIANTS = {
                                        "-fsanitize=fuzzer-no-link,address,undefined",
                                        "-fno-sanitize-recover=undefined"]),
     "rel": dict(cxx="g++", flags=["-O2", "-DNDEBUG"]),
+    # asserts on, no sanitizers: the workhorse for the semantic campaigns (6x faster than san per SIM invocation)
+    "fast": dict(cxx="g++", flags=["-O2"]),
 }
 
 
@@ -174,7 +177,7 @@ def c_tool(name, flags=()):
 def warm():
     t = time.time()
     with ThreadPoolExecutor(max_workers=3) as ex:
-        list(ex.map(variant_dir, ["san", "fuzz", "rel"]))
+        list(ex.map(variant_dir, ["san", "fuzz", "rel", "fast"]))
     ninja_binary("rel")
     print("build cache warm in %.1fs: %s" % (time.time() - t, BUILD))
 
